@@ -4,7 +4,8 @@ Proved part (coq/Props/Properties_C09.v, proofs in coq/Store/GcFacts.v and coq/G
 on the abstract heap / mutator language of AV.Store.Gc, for ALL programs and ALL schedules
 (any predicate on allocation ordinals, in particular the hook's `n mod k = j'), the outputs
 equal those of the run without collections (schedule_irrelevant), a reachable block survives
-unchanged, only unreachable blocks are freed, no variable ever dangles (no_dangling).
+unchanged, only unreachable blocks are freed, no variable ever dangles (no_dangling); zeroing dead
+variable slots before a collection (fint.c:fintFreeJunk) is not observable (fint_free_junk_safe).
 
 Explored part (this file; level `exploration', PARTIAL): the real collector finds its roots by
 conservatively scanning the C stack, registers and static data - not modelled.  Allocation-heavy
@@ -30,7 +31,8 @@ MANIFEST = {
     "level_text": "Partial.  Machine-checked (Coq) for the abstract collector: for every program of a mutator language "
                   "(allocate blocks with pointer fields, drop roots, interior pointers, load, store, output, pointer "
                   "equality) and every set of allocation points at which a collection is forced, the outputs equal those "
-                  "of the run without collections; reachable blocks survive unchanged; nothing reachable is ever freed.  "
+                  "of the run without collections; reachable blocks survive unchanged; nothing reachable is ever freed; "
+                  "clearing dead variable slots before a collection is unobservable.  "
                   "For the real collector (conservative scan of C stack, registers, static data) the statement is only "
                   "explored: generated and hand-written allocation-heavy programs and a sample of the repository's test "
                   "programs are run interpreted and compiled under forced collection schedules k:j (quick: k in "
@@ -97,9 +99,9 @@ class Tools:
         return [self.aldor, "-Nfile=%s/aldor/src/aldor.conf" % C.RB, "-Y" + self.rt,
                 "-Y%s/aldor/lib/libfoam/al" % C.RB] + inc + ["-Mno-warnings"]
 
-    def build_cmd(self, lib):
+    def build_cmd(self, lib, opt=()):
         _, l = lib_flags(lib)
-        return self.base(lib) + ["-Ccc=%s/aldor/subcmd/unitools/unicl" % C.RB, "-Y%s/aldor/lib/libfoam" % C.RB, l,
+        return self.base(lib) + list(opt) + ["-Ccc=%s/aldor/subcmd/unitools/unicl" % C.RB, "-Y%s/aldor/lib/libfoam" % C.RB, l,
                                  "-Cargs=-Wconfig=%s/aldor/src/aldor.conf -I%s" % (C.RB, C.eff_src()),
                                  "-fao", "-fc", "-fx=p.exe", "p.as"]
 
@@ -108,7 +110,7 @@ class Tools:
         program's unforced run already trips an interpreter assertion under -Wcheck."""
         lib, d = p.get("lib", "aldor"), p["dir"]
         _, l = lib_flags(lib)
-        chk = p.get("chk", ["-Wcheck"])
+        chk = p.get("chk", ["-Wcheck"]) + list(p.get("opt", ()))
         if route == "exe":
             return [os.path.join(d, "p.exe")], d
         if route == "interp-ao":             # own directory: `-ginterp p.as' deletes a p.ao beside it
@@ -137,9 +139,9 @@ def how_to_replay(tools, p, route, sched):
     steps = ["./check C09 --replay <this file>      # rebuilds compiler + libfoam.a from the current sources.  By hand:",
              "# write replay.src to p.as; aldor = compiler built from the current tree with -DALDOR_VERIF; the first -Y is "
              "the directory of libfoam.a built from the current tree with -DFOAM_RTS -DALDOR_VERIF",
-             "%s %s" % (env, q(tools.build_cmd(lib)))]
+             "%s %s" % (env, q(tools.build_cmd(lib, p.get("opt", ()))))]
     if route == "compile":
-        bc = tools.build_cmd(lib)
+        bc = tools.build_cmd(lib, p.get("opt", ()))
         return steps[:2] + ["%s %s   # fails" % (env, q(bc)), "%s %s   # collector off: succeeds" % (env, q(bc[:1] + ["-Wno-gc"] + bc[1:]))]
     if route == "interp-ao":
         steps.append("mkdir ao && mv p.ao ao/ && cd ao")
@@ -183,13 +185,19 @@ def classify(r, base):
 
 # ------------------------------------------------------------------ programs
 
-def hand_program(pseed, nblocks=None, scale=None, spec=None):
+OPT_CHOICES = ([], [], ["-Q3"], ["-Q3", "-Qkillp"])     # of_killp.c (pointer crushing) is only enabled by -Qkillp
+
+
+def hand_program(pseed, nblocks=None, scale=None, spec=None, opt=None):
     """Deterministic hand-family program from its own seed (or from an explicit block spec
     [(block index, block seed, scale)], used by the shrinker)."""
     if spec is None:
         r = random.Random(pseed)
         nb = nblocks or r.choice((1, 2, 2, 3))
         spec = [(r.randrange(len(F.BLOCKS)), r.randrange(1 << 30), scale or r.choice((1, 1, 2))) for _ in range(nb)]
+        if opt is None:
+            opt = r.choice(OPT_CHOICES)
+    opt = list(opt or [])
     blks = [F.BLOCKS[bi](random.Random(bs), i, sc) for i, (bi, bs, sc) in enumerate(spec)]
     out = []
     for b in blks:
@@ -197,7 +205,8 @@ def hand_program(pseed, nblocks=None, scale=None, spec=None):
     for b in blks:
         out += b.late_out
     shapes = [b.shape for b in blks]
-    return {"name": "hand-%s(%s)" % (pseed, "+".join(shapes)), "family": "hand", "lib": "aldor", "shapes": shapes,
+    return {"name": "hand-%s(%s)%s" % (pseed, "+".join(shapes), "@" + "".join(opt) if opt else ""), "family": "hand",
+            "lib": "aldor", "shapes": shapes, "opt": opt,
             "spec": [list(s) for s in spec], "pseed": pseed,
             "src": F.HEADER + "".join(b.src for b in blks) + "".join(b.late_src for b in blks),
             "expect_out": "".join(l + "\n" for l in out), "expect_status": "ok"}
@@ -296,7 +305,7 @@ def prepare(tools, p, d, want_interp=True):
     def built(r):
         return r["rc"] == 0 and not r["timeout"] and os.path.exists(os.path.join(d, "p.exe")) and \
             os.path.exists(os.path.join(d, "p.ao"))
-    bc = tools.build_cmd(lib)
+    bc = tools.build_cmd(lib, p.get("opt", ()))
     t_build, t_base = p.get("timeouts", (60, 20))
     r = runb(bc, cwd=d, env=tools.env, timeout=t_build)
     if not built(r):
@@ -447,13 +456,13 @@ def gloop_text(lines, gc_after):
     return "\n".join(out + ["#quit", ""])
 
 
-def gloop_run(tools, text, d, sched=None, timeout=120):
+def gloop_run(tools, text, d, sched=None, timeout=120, nogc=False):
     os.makedirs(d, exist_ok=True)
     env = dict(tools.env)
     if sched:
         env["ALDOR_VERIF_GC"] = "%d:%d" % sched
     t0 = time.time()
-    p = subprocess.Popen(tools.base("aldor") + ["-gloop"], cwd=d, env=env, stdin=subprocess.PIPE,
+    p = subprocess.Popen(tools.base("aldor") + (["-Wno-gc"] if nogc else []) + ["-gloop"], cwd=d, env=env, stdin=subprocess.PIPE,
                          stdout=subprocess.PIPE, stderr=subprocess.PIPE, start_new_session=True)
     try:
         out, err = p.communicate(text.encode(), timeout=timeout)
@@ -486,17 +495,19 @@ def gloop_stage(rep, tools, rng, tier, base):
     def one(job):
         seed, lines, exp = job
         d = "%s/gl%d" % (base, next(_uniq))
-        ref = gloop_run(tools, gloop_text(lines, ()), d)
+        ref = gloop_run(tools, gloop_text(lines, ()), d, nogc=True)       # reference: collector off
         res = []
         if ref["timeout"] or ref["rc"] != 0:
-            return job, ref, [("skip", None, None, "plain session fails: rc %s %r" % (ref["rc"], ref["err"][-200:]))]
+            return job, ref, [("skip", None, None, "collector-off session fails: rc %s %r" % (ref["rc"], ref["err"][-200:]))]
         got = [l for l in ref["out"].decode("utf-8", "replace").split("\n")]
         pos = 0
         for e in exp:                      # the printed lines, in order, among the interpreter's chatter
             while pos < len(got) and got[pos] != e:
                 pos += 1
             if pos == len(got):
-                return job, ref, [("skip", None, None, "plain session does not print the expected line %r" % e)]
+                return job, ref, [("skip", None, None, "collector-off session does not print the expected line %r" % e)]
+        nat = gloop_run(tools, gloop_text(lines, ()), d)                   # natural collections only
+        res.append(("run", (), None, classify(nat, ref)))
         allpos = tuple(range(3, len(lines)))
         for sched in scheds:
             r = gloop_run(tools, gloop_text(lines, allpos), d, sched=sched, timeout=300)
@@ -522,12 +533,15 @@ def gloop_stage(rep, tools, rng, tier, base):
                 if c:
                     if worst is None or len(pos) < len(worst[0]):
                         worst = (pos, sched, c)
+                    if not pos:
+                        break
             if worst:
                 pos, sched, c = worst
                 text = gloop_text(lines, pos)
-                rep.violation("interactive session (aldor -gloop) %d: %s when `#int gc' follows statement(s) %s%s - %s"
+                rep.violation("interactive session (aldor -gloop) %d: %s, compared with the collector-off session (-Wno-gc), %s%s - %s"
                               % (seed, {"fault": "storage fault", "output": "different transcript"}.get(c[0], c[0]),
-                                 list(pos), " under ALDOR_VERIF_GC=%d:%d" % sched if sched else "", c[1]),
+                                 "when `#int gc' follows statement(s) %s" % list(pos) if pos else "with natural collections only",
+                                 " under ALDOR_VERIF_GC=%d:%d" % sched if sched else "", c[1]),
                               {"how_to_replay": ["./check C09 --replay <this file>",
                                                  "ALDORROOT=%s/aldor LC_ALL=C %s%s -gloop < session   # versus the same session "
                                                  "without the `#int gc' lines" % (C.RB, "ALDOR_VERIF_GC=%d:%d " % sched if sched else "",
@@ -535,7 +549,7 @@ def gloop_stage(rep, tools, rng, tier, base):
                                "route": "gloop", "session": text, "session_plain": gloop_text(lines, ()),
                                "k": sched[0] if sched else 0, "j": sched[1] if sched else 0,
                                "expected_printed_lines": exp, "reference_transcript": ref["out"].decode("utf-8", "replace")[:4000]},
-                              key="gc:gloop:%d:%s:%s" % (seed, ",".join(map(str, pos)) if len(pos) < 4 else "all",
+                              key="gc:gloop:%d:%s:%s" % (seed, (",".join(map(str, pos)) if len(pos) < 4 else "all") if pos else "natural",
                                                          "%d:%d" % sched if sched else "int-gc"))
     return dict(stats)
 
@@ -739,6 +753,7 @@ def run(rep, tier):
                          for p in usable[:12]],
                 input_distribution={
                     "programs_usable": len(usable), "by_family": dict(fam), "shapes(programs containing)": dict(shapes),
+                    "optimisation_options": dict(collections.Counter(" ".join(p.get("opt", [])) or "default" for p in usable)),
                     "programs_skipped": len(skipped), "skipped_reasons": skipped[:12],
                     "routes_dropped(no usable reference run)": sum(len(p.get("dropped", {})) for p in usable),
                     "interpreter_programs_run_without_-Wcheck": [p["name"] for p in usable if not p.get("chk")][:20],
@@ -791,7 +806,8 @@ def load_corpus():
                 except (OSError, ValueError):
                     continue
                 out.append({"name": "corpus/" + fn[:-5], "family": "corpus", "lib": o.get("lib", "aldor"),
-                            "shapes": o.get("shapes", ["corpus"]), "src": o["src"], "expect_out": o.get("expect_out"),
+                            "shapes": o.get("shapes", ["corpus"]), "opt": o.get("opt", []), "src": o["src"],
+                            "expect_out": o.get("expect_out"),
                             "expect_status": o.get("expect_status", "ok" if o.get("expect_out") is not None else None),
                             "route": o.get("route", "exe"), "k": int(o.get("k", 1)), "j": int(o.get("j", 0)),
                             "key": o.get("key")})
@@ -830,7 +846,7 @@ def shrink_hand(tools, p, route, sched, base, budget_s):
     best = (p, sched)
 
     def attempt(sp):
-        q = hand_program(p["pseed"], spec=sp)
+        q = hand_program(p["pseed"], spec=sp, opt=p.get("opt"))
         prepare(tools, q, "%s/shr%d" % (base, next(_uniq)), want_interp=route != "exe")
         if q.get("skip") or route not in q["base"]:
             return None
@@ -953,7 +969,7 @@ def report_failures(rep, tools, failures, base, tier):
 def key_of(p, route, sched):
     if p.get("key"):
         return p["key"]
-    nm = "+".join(sorted(p["shapes"])) if p["family"] == "hand" else p["name"]
+    nm = "+".join(sorted(p["shapes"])) + "".join("@" + o for o in p.get("opt", ())) if p["family"] == "hand" else p["name"]
     return "gc:%s:%s:%s" % (route, nm, "%d:%d" % sched if sched else "natural")
 
 
@@ -964,7 +980,7 @@ def emit(rep, tools, p, route, sched, kind, detail, note, n_sched):
                                  "hang": "no termination"}.get(kind.split(":")[-1], kind),
         "ALDOR_VERIF_GC=%d:%d" % sched if sched else "the unforced (natural) collection schedule", detail, n_sched)
     obj = {"how_to_replay": how_to_replay(tools, p, route, sched or (0, 0)), "name": p["name"], "family": p["family"],
-           "lib": p.get("lib", "aldor"), "shapes": p["shapes"], "route": route,
+           "lib": p.get("lib", "aldor"), "shapes": p["shapes"], "opt": p.get("opt", []), "route": route,
            "k": sched[0] if sched else 0, "j": sched[1] if sched else 0, "kind": kind,
            "src": p["src"], "expect_out": p["expect_out"], "expect_status": p["expect_status"],
            "spec": p.get("spec"), "pseed": p.get("pseed"), "seed": p.get("seed"), "size": p.get("size"),
@@ -980,7 +996,7 @@ def replay(path):
     if rp.get("route") == "gloop":
         tools = Tools()
         d = C.scratch("c09r")
-        ref = gloop_run(tools, rp["session_plain"], d)
+        ref = gloop_run(tools, rp["session_plain"], d, nogc=True)
         sched = (int(rp["k"]), int(rp["j"])) if int(rp.get("k", 0)) else None
         r = gloop_run(tools, rp["session"], d, sched=sched, timeout=1800)
         c = classify(r, ref)
@@ -996,7 +1012,7 @@ def replay(path):
         return 2
     tools = Tools()
     p = {"name": rp.get("name", "replay"), "family": rp.get("family", "corpus"), "lib": rp.get("lib", "aldor"),
-         "shapes": rp.get("shapes", []), "src": rp["src"], "expect_out": rp.get("expect_out"),
+         "shapes": rp.get("shapes", []), "opt": rp.get("opt", []), "src": rp["src"], "expect_out": rp.get("expect_out"),
          "expect_status": rp.get("expect_status")}
     prepare(tools, p, C.scratch("c09r") + "/r")
     if p.get("skip"):
